@@ -26,6 +26,15 @@ import (
 //     reproducible.
 const smudgeParties, smudgeCoeffs = 4, 512
 
+// four4 builds the protocol objects of the four smudge parties: a constructed one, a ShallowCopy of it, a copy of
+// that copy, and a second constructed one. They live for the whole leaf, i.e. they are reused over the rounds at
+// changing levels, ciphertexts and shapes.
+func four4[P any](fresh func() P, cp func(P) P) [smudgeParties]P {
+	a := fresh()
+	b := cp(a)
+	return [smudgeParties]P{a, b, cp(b), fresh()}
+}
+
 func judgeSmudge(c *engine.Chooser, sig string, pool []*big.Int, requested float64, sup *big.Int) {
 	c.Count(len(pool) / 16)
 	if len(pool) < smudgeCoeffs {
@@ -82,20 +91,19 @@ func smudgeKS(c *engine.Chooser, nm string, sigma float64, ntt bool) {
 	In, Out := mp.NewParties(params, smudgeParties), mp.NewParties(params, smudgeParties)
 	flood := mp.Flood(params, sigma)
 	_, sup := mp.KSNoise(params, flood)
-	ks, err := multiparty.NewKeySwitchProtocol(params, flood)
-	if err != nil {
-		c.Fail("C16/ks/NewKeySwitchProtocol/error", "%v", err)
-		return
-	}
+	ks := four4(func() multiparty.KeySwitchProtocol {
+		p, err := multiparty.NewKeySwitchProtocol(params, flood)
+		if err != nil {
+			panic(fmt.Sprintf("harness: %v", err))
+		}
+		return p
+	}, func(p multiparty.KeySwitchProtocol) multiparty.KeySwitchProtocol { return p.ShallowCopy() })
 	var pool []*big.Int
 	for round := 0; len(pool) < smudgeCoeffs; round++ {
 		lvl := round % (params.MaxLevel() + 1)
 		ct, _ := encryptUnder(params, In.Ideal, lvl, nm, "pt", round)
 		for i := 0; i < smudgeParties; i++ {
-			p := ks
-			if i > 0 {
-				p = ks.ShallowCopy()
-			}
+			p := ks[i]
 			sh := p.AllocateShare(lvl)
 			p.GenShare(In.SK[i], Out.SK[i], ct, &sh)
 			pool = append(pool, mp.LinearResidual(params, sh.Value, ct.Value[1], ct.IsNTT, mp.DiffKeys(params, Out.SK[i], In.SK[i]))...)
@@ -110,27 +118,26 @@ func smudgePCKS(c *engine.Chooser, nm string, sigma float64, ntt bool) {
 	In := mp.NewParties(params, smudgeParties)
 	skOut, pkOut := rlwe.NewKeyGenerator(params).GenKeyPairNew()
 	flood := mp.Flood(params, sigma)
-	N, B := int64(params.N()), mp.XeSup(params.Xe()).Int64()
+	N, B := mp.RingFactor(params), mp.XeSup(params.Xe()).Int64()
 	sup := new(big.Int).Add(big.NewInt(N*B+B+N*B+int64(params.PCount()+1)*(1+N)), mp.XeSup(flood)) // see pcksLeaf
-	pcks, err := multiparty.NewPublicKeySwitchProtocol(params, flood)
-	if err != nil {
-		c.Fail("C16/pcks/NewPublicKeySwitchProtocol/error", "%v", err)
-		return
-	}
+	pcks := four4(func() multiparty.PublicKeySwitchProtocol {
+		p, err := multiparty.NewPublicKeySwitchProtocol(params, flood)
+		if err != nil {
+			panic(fmt.Sprintf("harness: %v", err))
+		}
+		return p
+	}, func(p multiparty.PublicKeySwitchProtocol) multiparty.PublicKeySwitchProtocol { return p.ShallowCopy() })
 	var pool []*big.Int
 	for round := 0; len(pool) < smudgeCoeffs; round++ {
 		lvl := round % (params.MaxLevel() + 1)
 		ct, _ := encryptUnder(params, In.Ideal, lvl, nm, "pt", round)
 		for i := 0; i < smudgeParties; i++ {
-			p := pcks
-			if i > 0 {
-				p = pcks.ShallowCopy()
-			}
+			p := pcks[i]
 			sh := p.AllocateShare(lvl)
 			p.GenShare(In.SK[i], pkOut, ct, &sh)
 			h := &rlwe.Element[ring.Poly]{Value: sh.Value, MetaData: &rlwe.MetaData{}}
 			h.IsNTT = ct.IsNTT
-			ph := uni.Phase(params, h, skOut)
+			ph := mp.Phase(params, h, skOut)
 			c1s := mp.LinearResidual(params, params.RingQ().AtLevel(lvl).NewPoly(), ct.Value[1], ct.IsNTT, In.SK[i])
 			pool = append(pool, uni.SubCentered(ph, c1s, uni.QAtLevel(params, lvl))...)
 		}
@@ -150,24 +157,37 @@ func smudgeBGV(c *engine.Chooser, nm string, sigma float64, _ bool) {
 	s2e := nm[len("smudge/"):len("smudge/bgv-s2e")] == "bgv-s2e"
 	var pool []*big.Int
 	var w *bgvWorld
+	e2sAll := map[uint64][smudgeParties]mpbgv.EncToShareProtocol{}
+	s2eAll := map[uint64][smudgeParties]mpbgv.ShareToEncProtocol{}
 	for round := 0; len(pool) < smudgeCoeffs; round++ {
-		k := cfg{chain: mp.ChainMixed, n: smudgeParties, lin: round % 4, sigma: sigma, t: []uint64{97, 65537}[round%2]}
+		k := cfg{chain: mp.ChainMixed, n: smudgeParties, lin: (round / 2) % 4, sigma: sigma, t: []uint64{97, 65537}[round%2]}
 		w = newBGVWorld(c, fmt.Sprintf("%s#%d", nm, round), k)
 		rp := w.rp
-		e2sP, err := mpbgv.NewEncToShareProtocol(w.params, w.flood)
-		if err != nil {
-			c.Fail("C16/bgv-e2s/New/error", "%v", err)
-			return
+		if _, ok := e2sAll[k.t]; !ok { // one set of objects per plaintext modulus, reused over the rounds
+			e2sAll[k.t] = four4(func() mpbgv.EncToShareProtocol {
+				p, err := mpbgv.NewEncToShareProtocol(w.params, w.flood)
+				if err != nil {
+					panic(fmt.Sprintf("harness: %v", err))
+				}
+				return p
+			}, func(p mpbgv.EncToShareProtocol) mpbgv.EncToShareProtocol { return p.ShallowCopy() })
+			s2eAll[k.t] = four4(func() mpbgv.ShareToEncProtocol {
+				p, err := mpbgv.NewShareToEncProtocol(w.params, w.flood)
+				if err != nil {
+					panic(fmt.Sprintf("harness: %v", err))
+				}
+				return p
+			}, func(p mpbgv.ShareToEncProtocol) mpbgv.ShareToEncProtocol { return p.ShallowCopy() })
 		}
-		s2eP, _ := mpbgv.NewShareToEncProtocol(w.params, w.flood)
-		crp := s2eP.SampleCRP(rp.MaxLevel(), mp.CRS(0))
+		crp := s2eAll[k.t][0].SampleCRP(rp.MaxLevel(), mp.CRS(0))
 		for i := 0; i < smudgeParties; i++ {
+			e2sP, s2eP := e2sAll[k.t][i], s2eAll[k.t][i]
 			pub := e2sP.AllocateShare(k.lin)
 			sec := mpbgv.NewAdditiveShare(w.params)
 			e2sP.GenShare(w.P.SK[i], w.ct, &sec, &pub)
 			if !s2e {
 				e := mp.LinearResidual(rp, pub.Value, w.ct.Value[1], true, negKey(rp, w.P.SK[i]))
-				pool = append(pool, addMod(e, w.liftMask(sec.Value.Coeffs[0], k.lin), uni.QAtLevel(rp, k.lin))...)
+				pool = append(pool, addMod(e, w.liftMask(rp, sec.Value.Coeffs[0], k.lin), uni.QAtLevel(rp, k.lin))...)
 				continue
 			}
 			c0 := s2eP.AllocateShare(rp.MaxLevel())
@@ -175,7 +195,7 @@ func smudgeBGV(c *engine.Chooser, nm string, sigma float64, _ bool) {
 				c.Fail("C16/bgv-s2e/GenShare/error", "%v", err)
 				return
 			}
-			neg := w.liftMask(sec.Value.Coeffs[0], rp.MaxLevel())
+			neg := w.liftMask(rp, sec.Value.Coeffs[0], rp.MaxLevel())
 			for j := range neg {
 				neg[j].Neg(neg[j])
 			}
@@ -194,6 +214,8 @@ func smudgeCKKS(c *engine.Chooser, nm string, sigma float64, _ bool) {
 	s2e := nm[len("smudge/"):len("smudge/ckks-s2e")] == "ckks-s2e"
 	var pool []*big.Int
 	var w *ckksWorld
+	var e2sAll [smudgeParties]mpckks.EncToShareProtocol
+	var s2eAll [smudgeParties]mpckks.ShareToEncProtocol
 	for round := 0; len(pool) < smudgeCoeffs; round++ {
 		k := cfg{chain: mp.ChainCK40, n: smudgeParties, lin: round % 2, sigma: sigma, logSlots: []int{3, 1, 0}[round%3], logScale: 40, batched: true}
 		w = newCKKSWorld(c, fmt.Sprintf("%s#%d", nm, round), k)
@@ -201,14 +223,25 @@ func smudgeCKKS(c *engine.Chooser, nm string, sigma float64, _ bool) {
 			panic("harness: smudge world outside the chain")
 		}
 		rp := w.rp
-		e2sP, err := mpckks.NewEncToShareProtocol(w.params, w.flood)
-		if err != nil {
-			c.Fail("C16/ckks-e2s/New/error", "%v", err)
-			return
+		if round == 0 { // one set of objects, reused over the rounds (levels, slot counts change)
+			e2sAll = four4(func() mpckks.EncToShareProtocol {
+				p, err := mpckks.NewEncToShareProtocol(w.params, w.flood)
+				if err != nil {
+					panic(fmt.Sprintf("harness: %v", err))
+				}
+				return p
+			}, func(p mpckks.EncToShareProtocol) mpckks.EncToShareProtocol { return p.ShallowCopy() })
+			s2eAll = four4(func() mpckks.ShareToEncProtocol {
+				p, err := mpckks.NewShareToEncProtocol(w.params, w.flood)
+				if err != nil {
+					panic(fmt.Sprintf("harness: %v", err))
+				}
+				return p
+			}, func(p mpckks.ShareToEncProtocol) mpckks.ShareToEncProtocol { return p.ShallowCopy() })
 		}
-		s2eP, _ := mpckks.NewShareToEncProtocol(w.params, w.flood)
-		crp := s2eP.SampleCRP(rp.MaxLevel(), mp.CRS(0))
+		crp := s2eAll[0].SampleCRP(rp.MaxLevel(), mp.CRS(0))
 		for i := 0; i < smudgeParties; i++ {
+			e2sP, s2eP := e2sAll[i], s2eAll[i]
 			pub := e2sP.AllocateShare(w.lin)
 			sec := mpckks.NewAdditiveShare(w.params, k.logSlots)
 			if err := e2sP.GenShare(w.P.SK[i], w.logBound, w.ct, &sec, &pub); err != nil {
